@@ -20,40 +20,40 @@ var intrinsics map[string]handler
 func init() {
 	intrinsics = map[string]handler{
 		// ---- reflect ----
-		"reflect.ValueOf":              hReflectValueOf,
-		"reflect.TypeOf":               hReflectTypeOf,
-		"reflect.Indirect":             hReflectIndirect,
-		"reflect.New":                  hReflectNew,
-		"reflect.DeepEqual":            hReflectDeepEqual,
-		"(reflect.Value).Kind":         hRVKind,
-		"(reflect.Value).IsNil":        hRVIsNil,
-		"(reflect.Value).IsValid":      hRVIsValid,
-		"(reflect.Value).Elem":         hRVElem,
-		"(reflect.Value).Set":          hRVSet,
-		"(reflect.Value).Interface":    hRVInterface,
-		"(reflect.Value).Type":         hRVType,
-		"(reflect.Value).FieldByName":  hRVFieldByName,
-		"(reflect.Value).Len":          hRVLen,
-		"(reflect.Kind).String":        func(m *Machine, fr *frame, fn *ssa.Function, a []Value) Value { return "kind" },
+		"reflect.ValueOf":             hReflectValueOf,
+		"reflect.TypeOf":              hReflectTypeOf,
+		"reflect.Indirect":            hReflectIndirect,
+		"reflect.New":                 hReflectNew,
+		"reflect.DeepEqual":           hReflectDeepEqual,
+		"(reflect.Value).Kind":        hRVKind,
+		"(reflect.Value).IsNil":       hRVIsNil,
+		"(reflect.Value).IsValid":     hRVIsValid,
+		"(reflect.Value).Elem":        hRVElem,
+		"(reflect.Value).Set":         hRVSet,
+		"(reflect.Value).Interface":   hRVInterface,
+		"(reflect.Value).Type":        hRVType,
+		"(reflect.Value).FieldByName": hRVFieldByName,
+		"(reflect.Value).Len":         hRVLen,
+		"(reflect.Kind).String":       func(m *Machine, fr *frame, fn *ssa.Function, a []Value) Value { return "kind" },
 		// ---- sync ----
-		"(*sync.Mutex).Lock":      hMutexLock,
-		"(*sync.Mutex).Unlock":    hMutexUnlock,
-		"(*sync.RWMutex).Lock":    hMutexLock,
-		"(*sync.RWMutex).Unlock":  hMutexUnlock,
-		"(*sync.RWMutex).RLock":   hRLock,
+		"(*sync.Mutex).Lock":       hMutexLock,
+		"(*sync.Mutex).Unlock":     hMutexUnlock,
+		"(*sync.RWMutex).Lock":     hMutexLock,
+		"(*sync.RWMutex).Unlock":   hMutexUnlock,
+		"(*sync.RWMutex).RLock":    hRLock,
 		"(*sync.Mutex).TryLock":    hMutexTryLock,
 		"(*sync.RWMutex).TryLock":  hMutexTryLock,
 		"(*sync.RWMutex).TryRLock": hTryRLock,
 		"(*sync.Cond).Wait":        hCondWait,
 		"(*sync.Cond).Signal":      hCondSignal,
 		"(*sync.Cond).Broadcast":   hCondBroadcast,
-		"(*sync.RWMutex).RUnlock": hRUnlock,
-		"(*sync.WaitGroup).Add":   hWGAdd,
-		"(*sync.WaitGroup).Done":  hWGDone,
-		"(*sync.WaitGroup).Wait":  hWGWait,
-		"(*sync.Pool).Get":        hPoolGet,
-		"(*sync.Pool).Put":        hPoolPut,
-		"(*sync.Once).Do":         hOnceDo,
+		"(*sync.RWMutex).RUnlock":  hRUnlock,
+		"(*sync.WaitGroup).Add":    hWGAdd,
+		"(*sync.WaitGroup).Done":   hWGDone,
+		"(*sync.WaitGroup).Wait":   hWGWait,
+		"(*sync.Pool).Get":         hPoolGet,
+		"(*sync.Pool).Put":         hPoolPut,
+		"(*sync.Once).Do":          hOnceDo,
 		// ---- atomic ----
 		"sync/atomic.LoadInt32":           hAtomicLoad,
 		"sync/atomic.LoadInt64":           hAtomicLoad,
@@ -70,8 +70,11 @@ func init() {
 		"sync/atomic.CompareAndSwapInt32": hAtomicCAS,
 		"sync/atomic.CompareAndSwapInt64": hAtomicCAS,
 		// ---- time ----
-		"time.Now":   func(m *Machine, fr *frame, fn *ssa.Function, a []Value) Value { return m.timeNow() },
-		"time.Sleep": func(m *Machine, fr *frame, fn *ssa.Function, a []Value) Value { m.sleep(m.concretize(a[0].(T), true)); return nil },
+		"time.Now": func(m *Machine, fr *frame, fn *ssa.Function, a []Value) Value { return m.timeNow() },
+		"time.Sleep": func(m *Machine, fr *frame, fn *ssa.Function, a []Value) Value {
+			m.sleep(m.concretize(a[0].(T), true))
+			return nil
+		},
 		"time.After": func(m *Machine, fr *frame, fn *ssa.Function, a []Value) Value {
 			return m.after(m.concretize(a[0].(T), true))
 		},
@@ -133,21 +136,25 @@ func init() {
 		"math.Float32bits":     hFloatBits,
 		"math.Float64frombits": func(m *Machine, fr *frame, fn *ssa.Function, a []Value) Value { return m.C.FpFromBits(a[0].(T)) },
 		"math.Float32frombits": func(m *Machine, fr *frame, fn *ssa.Function, a []Value) Value { return m.C.FpFromBits(a[0].(T)) },
-		"math.Round": func(m *Machine, fr *frame, fn *ssa.Function, a []Value) Value { return m.C.FpRound(a[0].(T), true) },
-		"math.Trunc": func(m *Machine, fr *frame, fn *ssa.Function, a []Value) Value { return m.C.FpRound(a[0].(T), false) },
+		"math.Round":           func(m *Machine, fr *frame, fn *ssa.Function, a []Value) Value { return m.C.FpRound(a[0].(T), true) },
+		"math.Trunc":           func(m *Machine, fr *frame, fn *ssa.Function, a []Value) Value { return m.C.FpRound(a[0].(T), false) },
 		// ---- fmt / log / runtime ----
-		"fmt.Sprintf":   hSprintf,
-		"fmt.Errorf":    func(m *Machine, fr *frame, fn *ssa.Function, a []Value) Value { return m.makeError(m.sprintf(fr, a[0], a[1].(Slice))) },
-		"fmt.Sprint":    func(m *Machine, fr *frame, fn *ssa.Function, a []Value) Value { return m.sprintf(fr, nil, a[0].(Slice)) },
-		"fmt.Println":   hNop2,
-		"fmt.Printf":    hNop2,
-		"fmt.Print":     hNop2,
-		"log.Printf":    hNop,
-		"log.Println":   hNop,
-		"log.Print":     hNop,
-		"runtime.Stack": func(m *Machine, fr *frame, fn *ssa.Function, a []Value) Value { return m.C.BVC(0, 64) },
+		"fmt.Sprintf": hSprintf,
+		"fmt.Errorf": func(m *Machine, fr *frame, fn *ssa.Function, a []Value) Value {
+			return m.makeError(m.sprintf(fr, a[0], a[1].(Slice)))
+		},
+		"fmt.Sprint": func(m *Machine, fr *frame, fn *ssa.Function, a []Value) Value {
+			return m.sprintf(fr, nil, a[0].(Slice))
+		},
+		"fmt.Println":     hNop2,
+		"fmt.Printf":      hNop2,
+		"fmt.Print":       hNop2,
+		"log.Printf":      hNop,
+		"log.Println":     hNop,
+		"log.Print":       hNop,
+		"runtime.Stack":   func(m *Machine, fr *frame, fn *ssa.Function, a []Value) Value { return m.C.BVC(0, 64) },
 		"runtime.Gosched": hNop,
-		"errors.New":    func(m *Machine, fr *frame, fn *ssa.Function, a []Value) Value { return m.makeError(a[0]) },
+		"errors.New":      func(m *Machine, fr *frame, fn *ssa.Function, a []Value) Value { return m.makeError(a[0]) },
 		// ---- strconv / strings / regexp ----
 		"strconv.Itoa":       hItoa,
 		"strconv.Atoi":       hAtoi,
@@ -160,8 +167,12 @@ func init() {
 		"strings.Contains": func(m *Machine, fr *frame, fn *ssa.Function, a []Value) Value {
 			return m.C.BoolC(strings.Contains(m.concStr(a[0]), m.concStr(a[1])))
 		},
-		"strings.ToUpper": func(m *Machine, fr *frame, fn *ssa.Function, a []Value) Value { return strings.ToUpper(m.concStr(a[0])) },
-		"strings.ToLower": func(m *Machine, fr *frame, fn *ssa.Function, a []Value) Value { return strings.ToLower(m.concStr(a[0])) },
+		"strings.ToUpper": func(m *Machine, fr *frame, fn *ssa.Function, a []Value) Value {
+			return strings.ToUpper(m.concStr(a[0]))
+		},
+		"strings.ToLower": func(m *Machine, fr *frame, fn *ssa.Function, a []Value) Value {
+			return strings.ToLower(m.concStr(a[0]))
+		},
 		"regexp.MatchString": hRegexpMatch,
 		"strings.Join": func(m *Machine, fr *frame, fn *ssa.Function, a []Value) Value {
 			sl := a[0].(Slice)
@@ -180,7 +191,9 @@ func init() {
 		"strings.Index": func(m *Machine, fr *frame, fn *ssa.Function, a []Value) Value {
 			return m.C.BVC(uint64(int64(strings.Index(m.concStr(a[0]), m.concStr(a[1])))), 64)
 		},
-		"strings.TrimSpace": func(m *Machine, fr *frame, fn *ssa.Function, a []Value) Value { return strings.TrimSpace(m.concStr(a[0])) },
+		"strings.TrimSpace": func(m *Machine, fr *frame, fn *ssa.Function, a []Value) Value {
+			return strings.TrimSpace(m.concStr(a[0]))
+		},
 		// ---- sort ----
 		"sort.SliceStable": hSortSliceStable,
 		"sort.Slice":       hSortSliceAny,
